@@ -33,7 +33,7 @@ theorem touch_end_iff (cfg : Cfg) (F : Follower κ) (k0 : κ) (s : Stream) (p : 
     · by_cases hf : (after s p).isFinished = true
       · simp [hf]
       · simp [hf] at he
-    · by_cases ho : overLimit cfg (after s p) = true
+    · by_cases ho : terminated cfg (after s p) = true
       · simp [ho]
       · simp [ho] at he
   · rintro ⟨rfl, her⟩
@@ -42,7 +42,8 @@ theorem touch_end_iff (cfg : Cfg) (F : Follower κ) (k0 : κ) (s : Stream) (p : 
     rcases her with hf | ho
     · refine ⟨Ev.closed k (after s p).sid, ?_, by simp [Ev.isEnd]⟩
       simp [hf, liftEv]
-    · refine ⟨Ev.term k (after s p).sid .bufferedData (after s p).chunks (after s p).bytes, ?_, by simp [Ev.isEnd]⟩
+    · refine ⟨Ev.term k (after s p).sid (limitReason cfg (after s p)) (after s p).chunks (after s p).bytes (after s p).sacked,
+        ?_, by simp [Ev.isEnd]⟩
       simp [ho]
 
 theorem stepCore_end_iff (cfg : Cfg) (keyOf : Pkt → κ) (F : Follower κ) (p : Pkt) (k : κ) :
@@ -81,7 +82,7 @@ theorem cleanup_end_iff (cfg : Cfg) (lt : κ → κ → Bool) (F : Follower κ) 
       subst hk
       exact ⟨s', find?_of_mem hu hx3, hx4⟩
     · rintro ⟨s, hf, hx⟩
-      refine ⟨Ev.term k s.sid .timeout s.chunks s.bytes, ?_, by simp [Ev.isEnd]⟩
+      refine ⟨Ev.term k s.sid .timeout s.chunks s.bytes s.sacked, ?_, by simp [Ev.isEnd]⟩
       exact List.mem_map.2 ⟨(k, s), (sortEntries_perm lt _).mem_iff.2 (List.mem_filter.2 ⟨mem_of_find? hf, hx⟩), rfl⟩
   · simp [hd]
 
@@ -164,18 +165,18 @@ def Ev.isClosed (k : κ) : Ev κ → Bool
   | _ => false
 
 def Ev.isTerm (k : κ) (r : Reason) : Ev κ → Bool
-  | .term k' _ r' _ _ => decide (k' = k) && decide (r' = r)
+  | .term k' _ r' _ _ _ => decide (k' = k) && decide (r' = r)
   | _ => false
 
 omit [DecidableEq κ] in
 theorem sweep_events_timeout (cfg : Cfg) (lt : κ → κ → Bool) (F : Follower κ) (ts : Nat) :
-    ∀ e ∈ (maybeCleanup cfg lt F ts).2, ∃ k' sid c y, e = Ev.term k' sid .timeout c y := by
+    ∀ e ∈ (maybeCleanup cfg lt F ts).2, ∃ k' sid c y z, e = Ev.term k' sid .timeout c y z := by
   intro e he
   unfold maybeCleanup at he
   split at he
   · unfold cleanup at he
     obtain ⟨x, _, rfl⟩ := List.mem_map.1 he
-    exact ⟨_, _, _, _, rfl⟩
+    exact ⟨_, _, _, _, _, rfl⟩
   · cases he
 
 theorem core_events_shape (cfg : Cfg) (keyOf : Pkt → κ) (F : Follower κ) (p : Pkt) (e : Ev κ)
@@ -184,8 +185,9 @@ theorem core_events_shape (cfg : Cfg) (keyOf : Pkt → κ) (F : Follower κ) (p 
       ((announces cfg keyOf F p = true ∧ e = Ev.new (keyOf p) s.sid s.isPartial) ∨
        (∃ x ∈ (Stream.route { s with lastSeen := p.ts } p).2, e = liftEv (keyOf p) (after s p).sid x) ∨
        ((after s p).isFinished = true ∧ e = Ev.closed (keyOf p) (after s p).sid) ∨
-       (overLimit cfg (after s p) = true ∧
-          e = Ev.term (keyOf p) (after s p).sid .bufferedData (after s p).chunks (after s p).bytes)) := by
+       (terminated cfg (after s p) = true ∧
+          e = Ev.term (keyOf p) (after s p).sid (limitReason cfg (after s p)) (after s p).chunks (after s p).bytes
+                (after s p).sacked)) := by
   rw [stepCore_eq] at he
   cases ht : target cfg keyOf F p with
   | none => rw [ht] at he; cases he
@@ -203,7 +205,7 @@ theorem core_events_shape (cfg : Cfg) (keyOf : Pkt → κ) (F : Follower κ) (p 
       · simp only [hf, if_true, List.map_cons, List.map_nil, List.mem_singleton] at he
         exact Or.inr (Or.inr (Or.inl ⟨hf, he⟩))
       · simp [hf] at he
-    · by_cases ho : overLimit cfg (after s p) = true
+    · by_cases ho : terminated cfg (after s p) = true
       · simp only [ho, if_true, List.mem_singleton] at he
         exact Or.inr (Or.inr (Or.inr ⟨ho, he⟩))
       · simp [ho] at he
@@ -223,7 +225,7 @@ theorem closed_iff (cfg : Cfg) (keyOf : Pkt → κ) (lt : κ → κ → Bool) (F
         cases x <;> simp_all [liftEv, Ev.isClosed]
       · exact ⟨(by simpa [Ev.isClosed] using hc : keyOf p = k).symm, s, ht, hf⟩
       · simp [Ev.isClosed] at hc
-    · obtain ⟨_, _, _, _, rfl⟩ := sweep_events_timeout cfg lt _ _ e he
+    · obtain ⟨_, _, _, _, _, rfl⟩ := sweep_events_timeout cfg lt _ _ e he
       simp [Ev.isClosed] at hc
   · rintro ⟨rfl, s, ht, hf⟩
     refine ⟨Ev.closed (keyOf p) (after s p).sid, Or.inl ?_, by simp [Ev.isClosed]⟩
@@ -231,10 +233,18 @@ theorem closed_iff (cfg : Cfg) (keyOf : Pkt → κ) (lt : κ → κ → Bool) (F
     simp only [touch_snd, processPacket_events, List.map_append, List.mem_append]
     exact Or.inr (Or.inl (Or.inr (by simp [hf, liftEv])))
 
-/-- BUFFERED_DATA is reported exactly for the packet's own connection when it is over a limit after the packet -/
-theorem term_buffered_iff (cfg : Cfg) (keyOf : Pkt → κ) (lt : κ → κ → Bool) (F : Follower κ) (p : Pkt) (k : κ) :
-    (∃ e ∈ (step cfg keyOf lt F p).2, Ev.isTerm k .bufferedData e = true) ↔
-      (k = keyOf p ∧ ∃ s, target cfg keyOf F p = some s ∧ overLimit cfg (after s p) = true) := by
+theorem limitReason_buffered (cfg : Cfg) (s : Stream) : limitReason cfg s = .bufferedData ↔ overLimit cfg s = true := by
+  unfold limitReason; by_cases h : overLimit cfg s = true <;> simp [h]
+
+theorem limitReason_sacked (cfg : Cfg) (s : Stream) : limitReason cfg s = .sackedSegments ↔ overLimit cfg s = false := by
+  unfold limitReason; by_cases h : overLimit cfg s = true <;> simp [h]
+
+/-- a limit termination with reason `r` is reported exactly for the packet's own connection when the limits check
+    terminates it after the packet and names that reason -/
+theorem term_limit_iff (cfg : Cfg) (keyOf : Pkt → κ) (lt : κ → κ → Bool) (F : Follower κ) (p : Pkt) (k : κ) (r : Reason)
+    (hr : r ≠ .timeout) :
+    (∃ e ∈ (step cfg keyOf lt F p).2, Ev.isTerm k r e = true) ↔
+      (k = keyOf p ∧ ∃ s, target cfg keyOf F p = some s ∧ terminated cfg (after s p) = true ∧ limitReason cfg (after s p) = r) := by
   unfold step
   simp only [List.mem_append]
   constructor
@@ -244,14 +254,45 @@ theorem term_buffered_iff (cfg : Cfg) (keyOf : Pkt → κ) (lt : κ → κ → B
       · simp [Ev.isTerm] at hc
       · cases x <;> simp [liftEv, Ev.isTerm] at hc
       · simp [Ev.isTerm] at hc
-      · exact ⟨(by simpa [Ev.isTerm] using hc : keyOf p = k).symm, s, ht, ho⟩
-    · obtain ⟨_, _, _, _, rfl⟩ := sweep_events_timeout cfg lt _ _ e he
-      simp [Ev.isTerm] at hc
-  · rintro ⟨rfl, s, ht, ho⟩
-    refine ⟨Ev.term (keyOf p) (after s p).sid .bufferedData (after s p).chunks (after s p).bytes, Or.inl ?_, by simp [Ev.isTerm]⟩
+      · simp only [Ev.isTerm, Bool.and_eq_true, decide_eq_true_eq] at hc
+        exact ⟨hc.1.symm, s, ht, ho, hc.2⟩
+    · obtain ⟨_, _, _, _, _, rfl⟩ := sweep_events_timeout cfg lt _ _ e he
+      simp only [Ev.isTerm, Bool.and_eq_true, decide_eq_true_eq] at hc
+      exact absurd hc.2.symm hr
+  · rintro ⟨rfl, s, ht, ho, hrr⟩
+    refine ⟨Ev.term (keyOf p) (after s p).sid (limitReason cfg (after s p)) (after s p).chunks (after s p).bytes (after s p).sacked,
+      Or.inl ?_, by simp [Ev.isTerm, hrr]⟩
     rw [stepCore_eq, ht]
     simp only [touch_snd, List.mem_append]
     exact Or.inr (Or.inr (by simp [ho]))
+
+/-- BUFFERED_DATA is reported exactly for the packet's own connection when it is over a buffering limit after the packet -/
+theorem term_buffered_iff (cfg : Cfg) (keyOf : Pkt → κ) (lt : κ → κ → Bool) (F : Follower κ) (p : Pkt) (k : κ) :
+    (∃ e ∈ (step cfg keyOf lt F p).2, Ev.isTerm k .bufferedData e = true) ↔
+      (k = keyOf p ∧ ∃ s, target cfg keyOf F p = some s ∧ overLimit cfg (after s p) = true) := by
+  rw [term_limit_iff cfg keyOf lt F p k .bufferedData (by decide)]
+  constructor
+  · rintro ⟨hk, s, ht, _, hr⟩; exact ⟨hk, s, ht, (limitReason_buffered _ _).1 hr⟩
+  · rintro ⟨hk, s, ht, ho⟩
+    exact ⟨hk, s, ht, by unfold terminated; simp [ho], (limitReason_buffered _ _).2 ho⟩
+
+/-- SACKED_SEGMENTS is reported exactly for the packet's own connection when, after the packet, it is within both
+    buffering limits and its two ACK trackers hold more than `maxSacked` intervals -/
+theorem term_sacked_iff (cfg : Cfg) (keyOf : Pkt → κ) (lt : κ → κ → Bool) (F : Follower κ) (p : Pkt) (k : κ) :
+    (∃ e ∈ (step cfg keyOf lt F p).2, Ev.isTerm k .sackedSegments e = true) ↔
+      (k = keyOf p ∧ ∃ s, target cfg keyOf F p = some s ∧ overLimit cfg (after s p) = false ∧
+        (after s p).sacked > cfg.maxSacked) := by
+  rw [term_limit_iff cfg keyOf lt F p k .sackedSegments (by decide)]
+  constructor
+  · rintro ⟨hk, s, ht, hterm, hr⟩
+    have ho := (limitReason_sacked _ _).1 hr
+    unfold terminated overSacked at hterm
+    simp only [ho, Bool.false_or, Bool.not_false, Bool.true_and, decide_eq_true_eq] at hterm
+    exact ⟨hk, s, ht, ho, hterm⟩
+  · rintro ⟨hk, s, ht, ho, hc⟩
+    refine ⟨hk, s, ht, ?_, (limitReason_sacked _ _).2 ho⟩
+    unfold terminated overSacked
+    simp [ho, hc]
 
 /-- TIMEOUT is reported exactly when the sweep runs and the connection (as left by the packet) has been idle for the keep-alive -/
 theorem term_timeout_iff (cfg : Cfg) (keyOf : Pkt → κ) (lt : κ → κ → Bool) (F : Follower κ) (p : Pkt) (k : κ)
@@ -272,28 +313,14 @@ theorem term_timeout_iff (cfg : Cfg) (keyOf : Pkt → κ) (lt : κ → κ → Bo
       · simp [Ev.isTerm] at hc
       · cases x <;> simp [liftEv, Ev.isTerm] at hc
       · simp [Ev.isTerm] at hc
-      · simp [Ev.isTerm] at hc
+      · simp only [Ev.isTerm, Bool.and_eq_true, decide_eq_true_eq] at hc
+        have := hc.2; unfold limitReason at this; split at this <;> cases this
     · refine ⟨e, he, ?_⟩
-      obtain ⟨_, _, _, _, rfl⟩ := sweep_events_timeout cfg lt _ _ e he
+      obtain ⟨_, _, _, _, _, rfl⟩ := sweep_events_timeout cfg lt _ _ e he
       simpa [Ev.isTerm, Ev.isEnd] using hc
   · rintro ⟨e, he, hend⟩
     refine ⟨e, Or.inr he, ?_⟩
-    obtain ⟨_, _, _, _, rfl⟩ := sweep_events_timeout cfg lt _ _ e he
+    obtain ⟨_, _, _, _, _, rfl⟩ := sweep_events_timeout cfg lt _ _ e he
     simpa [Ev.isTerm, Ev.isEnd] using hend
-
-/-- SACKED_SEGMENTS is never reported (ACK tracking is off in the modelled configurations) -/
-theorem no_sacked (cfg : Cfg) (keyOf : Pkt → κ) (lt : κ → κ → Bool) (F : Follower κ) (p : Pkt) (k : κ) :
-    ∀ e ∈ (step cfg keyOf lt F p).2, Ev.isTerm k .sackedSegments e = false := by
-  intro e he
-  unfold step at he
-  rcases List.mem_append.1 he with he | he
-  · obtain ⟨s, _, h⟩ := core_events_shape cfg keyOf F p e he
-    rcases h with ⟨_, rfl⟩ | ⟨x, _, rfl⟩ | ⟨_, rfl⟩ | ⟨_, rfl⟩
-    · rfl
-    · cases x <;> rfl
-    · rfl
-    · simp [Ev.isTerm]
-  · obtain ⟨_, _, _, _, rfl⟩ := sweep_events_timeout cfg lt _ _ e he
-    simp [Ev.isTerm]
 
 end Tins.SF
